@@ -879,6 +879,8 @@ class RealEqMacro(Macro):
         if len(goal.get_vars()) != 0:
             raise ConvException
         try:
+            if goal.arg1.get_type() != RealType:
+                raise ConvException
             if goal.is_equals():
                 if real_eval(goal.lhs) == real_eval(goal.rhs):
                     return Thm(Eq(goal, true))
@@ -996,6 +998,7 @@ class RealCompareMacro(Macro):
 
     def eval(self, goal, prevs=[]):
         assert goal.is_compares(), "real_compare_macro: Should be an inequality term"
+        assert goal.arg1.get_type() == RealType, "real_compare_macro: goal must be on real numbers"
         lhs, rhs = real_eval(goal.arg1), real_eval(goal.arg)
         if goal.is_less():
             assert lhs < rhs, "%f !< %f" % (lhs, rhs)
